@@ -34,13 +34,13 @@ theorem C17_require (c : Cat) : (requireRio c).isRio = true ∨ requireRio c = .
 theorem C17_hdr_never_panics (h : TarHdr) : (∃ m, tarHdrToMeta h = .meta_ m) ∨ tarHdrToMeta h = .skip ∨
     tarHdrToMeta h = .halt .wareCorrupt := by
   unfold tarHdrToMeta
-  cases mustRel h.name with
-  | none => right; right; rfl
-  | some n =>
-    cases tarTypeToFsType h.typeflag with
-    | skip => right; left; rfl
-    | invalid => right; right; rfl
-    | kind k => left; exact ⟨_, rfl⟩
+  cases tarTypeToFsType h.typeflag with
+  | skip => right; left; rfl
+  | invalid => right; right; cases mustRel h.name <;> rfl
+  | kind k =>
+    cases mustRel h.name with
+    | none => right; right; rfl
+    | some n => left; exact ⟨_, rfl⟩
 
 
 /-! ## No panic, for every input (model level; proofs in `Rio/Proofs/{NoCrash,UnpackNoPanic}.lean`) -/
